@@ -120,7 +120,7 @@ class Reference:
     """Client side, lives in the worker.  Must be created before the worker builds any parser
     or starts any thread."""
 
-    def __init__(self, tree, cwd=None, hashseed=None):
+    def __init__(self, tree, cwd=None, hashseed=None, optimize=False):
         self.tree = tree
         self.cwd = cwd
         self.memo = {}
@@ -128,12 +128,14 @@ class Reference:
         self.calls = 0
         self.hits = 0
         self.hashseed = hashseed
+        self.optimize = False
         self.proc = None
         if hashseed is not None:
             # a zygote in a freshly exec'ed interpreter under ANOTHER hash seed: "in another process or
             # under a different hash seed yields an equal result"
             import subprocess
-            self.proc = subprocess.Popen([sys.executable, os.path.abspath(__file__), "--zygote", tree],
+            self.optimize = bool(optimize)
+            self.proc = subprocess.Popen([sys.executable] + (["-O"] if optimize else []) + [os.path.abspath(__file__), "--zygote", tree],
                                          stdin=subprocess.PIPE, stdout=subprocess.PIPE, stderr=subprocess.DEVNULL,
                                          env=core.worker_env(hashseed, OTHER_ENV))
             self.pid, self.wfd, self.rfd = self.proc.pid, self.proc.stdin.fileno(), self.proc.stdout.fileno()
